@@ -25,9 +25,15 @@ ASSUMPTIONS = ['corrected_ref is the displaced-copy model of C03 (vlib/refmodels
                'tolerance as in C01 (x2 for metamorphic comparisons of two float32 results)']
 
 
+def own(v):
+    return np.ascontiguousarray(v, dtype=np.int32).copy()
+
+
 def mi(Y, X, c):
-    return float(cut.mutual_info_estimator_numba(
-        np.ascontiguousarray(Y, dtype=np.int32), np.ascontiguousarray(X, dtype=np.int32), np.float32(1.0), bool(c)))
+    """Y, X: int32 arrays owned by the oracle (passed again on later calls) or anything convertible (fresh copy)."""
+    Ya = Y if isinstance(Y, np.ndarray) and Y.dtype == np.int32 else own(Y)
+    Xa = X if isinstance(X, np.ndarray) and X.dtype == np.int32 else own(X)
+    return float(cut.mutual_info_estimator_numba(Ya, Xa, np.float32(1.0), bool(c)))
 
 
 # ---- strategies ----------------------------------------------------------------------------------
@@ -38,9 +44,13 @@ def equal_sum_pair(draw):
     n = draw(st.integers(2, 40))
     k = draw(st.sampled_from([2, 3, 4, 6, n]))
     X = draw(st.lists(st.integers(0, k - 1), min_size=n, max_size=n))
-    mode = draw(st.sampled_from(['rowperm', 'plusminus', 'swap2']))
+    mode = draw(st.sampled_from(['rowperm', 'plusminus', 'swap2', 'offsetcopy']))
     Y = list(X)
-    if mode == 'rowperm':
+    if mode == 'offsetcopy':
+        # the same partition under shifted codes: different vectors, identical after subtracting the minimum
+        d = draw(st.sampled_from([1, 5, 400000]))
+        Y = [x + d for x in X]
+    elif mode == 'rowperm':
         perm = draw(st.permutations(list(range(n))))
         Y = [X[i] for i in perm]
     elif mode == 'plusminus':
@@ -109,7 +119,9 @@ def oracle_relabel(case, rec):
         rec.cls('excluded:self-rule-one-sided')
         raise Inconclusive()
     t = 2 * rm.tol(Y, X)
-    a, b = mi(Y, X, c), mi(Y2, X2, c)
+    Ya, Xa, Y2a, X2a = own(Y), own(X), own(Y2), own(X2)
+    mi(Ya, Xa, not c)                 # an earlier call with the other flag on the same objects must not matter
+    a, b = mi(Ya, Xa, c), mi(Y2a, X2a, c)
     changed = not (np.array_equal(Y, Y2) and np.array_equal(X, X2))
     nonconst = len(set(Y.tolist())) > 1 and len(set(X.tolist())) > 1
     rec.nt(changed and nonconst, key=[Y.tolist(), X.tolist(), fy, gx, c] if len(X) <= 64 else case)
@@ -124,23 +136,34 @@ def oracle_relabel(case, rec):
 def oracle_selfrule(case, rec):
     Y, X = gens.materialize_pair(case)
     t = rm.tol(Y, X)
+    Ya, Xa = own(Y), own(X)          # the caller's arrays: scored several times below
     if np.array_equal(Y, X):
         hx = rm.entropy(X)
-        a, b = mi(Y, X, True), mi(Y, X, False)
+        b, a = mi(Ya, Xa, False), mi(Ya, Xa, True)
         rec.cls('identical')
         rec.nt(hx > 0, key=['ident', X.tolist()])
         if abs(a - hx) > t or abs(b - hx) > t:
             raise Violation(f'self pair: corrected={a!r} plain={b!r} expected H(X)={hx!r}')
         return
     cref, pref = rm.corrected_ref(Y, X), rm.mi_ref(Y, X)
-    got = mi(Y, X, True)
+    plain = mi(Ya, Xa, False)
+    got = mi(Ya, Xa, True)
     eqsum = int(np.sum(X - Y)) == 0
     distinguishable = abs(cref - pref) > 10 * t
     rec.cls('equal-sum' if eqsum else 'different-sum')
-    rec.nt(eqsum and distinguishable, key=['ne', Y.tolist(), X.tolist()])
+    if np.array_equal(X - X.min(), Y - Y.min()):
+        rec.cls('same-partition-shifted-codes')
+    rec.nt((eqsum or np.array_equal(X - X.min(), Y - Y.min())) and distinguishable, key=['ne', Y.tolist(), X.tolist()])
+    if abs(plain - pref) > t:
+        raise Violation(f'non-identical pair: uncorrected score {plain!r} != plug-in MI {pref!r}')
     if abs(got - cref) > t:
         raise Violation(f'non-identical pair (sum(X-Y)={int(np.sum(X - Y))}): corrected score {got!r} != '
-                        f'H(Y*|X)-H(Y|X)={cref!r}; uncorrected plug-in MI would be {pref!r}')
+                        f'H(Y*|X)-H(Y|X)={cref!r}; uncorrected plug-in MI would be {pref!r} (scored after an uncorrected call on '
+                        f'the same array objects)')
+    again = mi(Ya, Xa, True)
+    if abs(again - cref) > t:
+        raise Violation(f'non-identical pair: corrected score on the third call with the same array objects is {again!r}, '
+                        f'reference {cref!r}')
 
 
 def _rename_map(values, seed):
